@@ -36,6 +36,9 @@ func init() {
 			{ID: "C15.R17", Text: "start-up fails on what it cannot obtain: the client's start and close paths call by call: the stream is opened, the listener subscribed (failure fatal), each optional component started and stopped under exactly its configuration switch (polarity included), Commit is Stream.Save, SetMetadata installs the supplied store, newDcp applies the defaults first and returns every error", Run: clientWiring},
 			{ID: "C15.R18", Text: "the start-up switch on the metadata type and the stream mode read the documented values: IsCouchbaseMetadata ⇔ type == \"couchbase\", IsFileMetadata ⇔ type == \"file\", IsDcpModeFinite ⇔ mode == \"finite\" (exhaustive)", Run: configPredicates},
 			{ID: "C15.R19", Text: "start-up does not go on without the server's version and bucket description: every fallible step of the REST client (ping, request, decode, version parse) reports its error on the edges on which it is non-nil, and no method returns (nil, nil)", Run: restStepErrors},
+			{ID: "C15.R20", Text: "a rebalance does not mark the session cancelled: Rebalance closes with Close(false), so recoverable ends of the next session are still reopened or fail the client (same rule as C11.R3)", Run: c11r3},
+			{ID: "C15.R21", Text: "an unresolved ${VAR} stays a literal the type switches refuse: placeholders are replaced only when LookupEnv reports the variable as set (same rule as C17.R4)", Run: c17r4},
+			{ID: "C15.R22", Text: "read-only mode does not hide a failed checkpoint load: the wrapper returns the wrapped store's (documents, exists, error) untouched from exactly one Load with its own arguments (exhaustive)", Run: readOnlyForwardsLoad},
 			{ID: "C15.R6", Text: "bounded reopen then fail-stop (same rule as C12.R3)", Run: c12r3},
 		},
 	})
